@@ -6,3 +6,14 @@ import "io"
 
 // VerifHTMLEscape exposes htmlEscapeString to the verification harness.
 func VerifHTMLEscape(w io.Writer, s string) { htmlEscapeString(w, s) }
+
+// VerifUnboundObserver, when set, is called with the key of every scope.lookup
+// that no frame binds (the lookup then yields Undefined).  Not safe for
+// concurrent renders; the harness renders sequentially.
+var VerifUnboundObserver func(key string)
+
+func notifyUnbound(k string) {
+	if VerifUnboundObserver != nil {
+		VerifUnboundObserver(k)
+	}
+}
